@@ -139,7 +139,8 @@ def handle(c):
             # (finite-difference groups are not what the C01 model describes: approx cases are oracle-only)
             flat2 = sg.flatten(s2)
             arrays = scaling_arrays(obs['prob'], s2, flat2)
-            out['res'] = [[[q(v) for v in a] for a in arrays],
+            itv = bool(coupled) or not (cfg.get('lin') == 'runonce' or str(cfg.get('lin', '')).startswith('direct'))
+            out['res'] = [[[q(v) for v in a] for a in arrays], None] if itv else [[[q(v) for v in a] for a in arrays],
                           [[[q(v) for v in row] for row in np.atleast_2d(obs['J', 'fwd', False])],
                            [[q(v) for v in row] for row in np.atleast_2d(obs['J', 'rev', False])],
                            [[q(v) for v in row] for row in np.atleast_2d(obs['J', 'fwd', True])],
